@@ -55,4 +55,34 @@ def monC01 (_c : MonCtx) : Mon C01St where
     | .vnew _ => some { st with hlog := [] }
     | _ => some st
 
+/-! ### well-formedness of a label sequence: message numbers and operation ids are never re-used
+  (the hypothesis of `C01_holds`; not a property of hannibal but of how traces name things) -/
+
+structure Wf01St where
+  seenM : List Nat
+  seenO : List Nat
+  deriving Repr, DecidableEq
+
+def wfBad (g : Wf01St) : Label → Bool
+  | .begin o _ k =>
+    g.seenO.contains o || (match k.msg? with | some m => g.seenM.contains m | none => false)
+  | .fire _ (some m) => g.seenM.contains m
+  | .tickBegin _ m => g.seenM.contains m
+  | _ => false
+
+def wfNext (g : Wf01St) : Label → Wf01St
+  | .begin o _ k =>
+    { seenM := (match k.msg? with | some m => m :: g.seenM | none => g.seenM), seenO := o :: g.seenO }
+  | .fire _ (some m) => { g with seenM := m :: g.seenM }
+  | .tickBegin _ m => { g with seenM := m :: g.seenM }
+  | _ => g
+
+/-- message numbers (of `begin`, `fire (some m)`, `tickBegin _ m`) and operation ids (of `begin`) are
+    pairwise distinct -/
+def monWf01 : Mon Wf01St where
+  init := { seenM := [], seenO := [] }
+  step g l := if wfBad g l then none else some (wfNext g l)
+
+def wf01 (ls : List Label) : Bool := monWf01.ok ls
+
 end Hannibal
